@@ -1,6 +1,289 @@
-(** C18 — placeholder while the correspondence is being developed *)
-From Coq Require Import ZArith List Bool String.
-From Ladim Require Import Model.Config.
-Theorem C18_stub : forall c : cv, c = c.
-Proof. intros; reflexivity. Qed.
-Print Assumptions C18_stub.
+(** C18 — One simulation, three spellings: YAML v2, TOML v2 and legacy v1 give the same run.
+
+    The YAML and TOML parsers are outside the model: both version-2 files parse to the same tree
+    (checked on every run by the correspondence, Corr/C18.v), so there is one v2 renderer.
+    [normalize] = what the eight module constructors finally receive (init_module's default module
+    names, the constructors' defaults, their treatment of falsy arguments, 0 = 0.0 for float
+    arguments) with the v1-only storage option [ncargs] dropped (netCDF4.Dataset ignores
+    [data_model] and the code forces format NETCDF4). *)
+From Coq Require Import ZArith List Bool String Ascii.
+From Ladim Require Import Model.Config Proofs.ConfigProofs.
+Import ListNotations.
+Open Scope string_scope.
+
+(** * T1 — the v1 spelling and the v2 spelling of a description give the same module arguments.
+    For EVERY description S (all 26 components arbitrary), every directory listing [glob], both
+    ways of writing the v2 file (optional sections written out / left out wherever possible):
+    hypotheses [wf_sim] ("S is expressible in the v1 vocabulary": a forcing file is named; a user
+    module is not called like the legacy ROMS module; the diffusion coefficient is a number; a
+    continuous release has a frequency; user names do not collide with the fixed keys that share
+    their section in a v1 file; output variables are named once) and [wf_glob] (an omitted grid file
+    with a wildcard forcing name has at least one match).  Each of these is necessary — see the
+    [..._refuted] examples below. *)
+Theorem C18_v1_equals_v2 : forall (glob : string -> list string) (wst : option cv) (S : sim) (omit : bool),
+  wf_sim S = true -> wf_glob glob S = true ->
+  normalize_res (configure_v1 glob (render_v1 S)) =
+  normalize_res (configure_v2 glob wst (render_v2 S omit)).
+Proof. exact v1_equals_v2. Qed.
+Print Assumptions C18_v1_equals_v2.
+
+(** the same through the entry point [configure] (version dispatch included: the v1 file with or
+    without an explicit [version: 1], the v2 file with or without [version: 2]) *)
+Theorem C18_three_spellings : forall (glob : string -> list string) (wst : option cv) (S : sim) (omit : bool),
+  wf_sim S = true -> wf_glob glob S = true ->
+  normalize_res (configure glob wst (render_v1 S)) =
+  normalize_res (configure glob wst (render_v2 S omit)).
+Proof. exact three_spellings. Qed.
+Print Assumptions C18_three_spellings.
+
+(** what the legacy reader returns for the v1 file, in closed form (it is accepted) *)
+Theorem C18_v1_accepted : forall (glob : string -> list string) (S : sim),
+  wf_sim S = true -> wf_glob glob S = true ->
+  configure_v1 glob (render_v1 S) = Ok (v1_result glob S).
+Proof. exact configure_v1_render. Qed.
+Print Assumptions C18_v1_accepted.
+
+(** * T2 — defaults of the version-2 reader *)
+(** a state / grid / ibm / warm_start section that is omitted, or present without content (null:
+    YAML "grid:" with nothing after it), behaves as an empty one — for EVERY configuration
+    dictionary, also one that is then refused: same exception, or dictionaries with the same
+    bindings ([rsame]; only the position of the added key can differ) *)
+Theorem C18_omitted_section_is_empty : forall (glob : string -> list string) (wst : option cv) (d : dict) (k : string),
+  optional_section k = true -> absent_or_null d k = true ->
+  rsame (configure_v2 glob wst (CDict d)) (configure_v2 glob wst (CDict (aset d k (CDict [])))).
+Proof. exact omitted_is_empty. Qed.
+Print Assumptions C18_omitted_section_is_empty.
+(** ... null and omitted are the same thing *)
+Theorem C18_null_section_is_omitted : forall (glob : string -> list string) (wst : option cv) (d : dict) (k : string),
+  optional_section k = true -> aget d k = None ->
+  rsame (configure_v2 glob wst (CDict d)) (configure_v2 glob wst (CDict (aset d k CNull))).
+Proof. exact null_is_omitted. Qed.
+Print Assumptions C18_null_section_is_omitted.
+(** ... hence the modules receive the same arguments *)
+Theorem C18_omitted_section_same_modules : forall (glob : string -> list string) (wst : option cv) (d : dict) (k : string),
+  optional_section k = true -> absent_or_null d k = true ->
+  normalize_res (configure_v2 glob wst (CDict d)) =
+  normalize_res (configure_v2 glob wst (CDict (aset d k (CDict [])))).
+Proof. exact omitted_same_modules. Qed.
+Print Assumptions C18_omitted_section_same_modules.
+(** the reader looks sections up by name only: the order of the keys of the file is irrelevant *)
+Theorem C18_key_order_irrelevant : forall (glob : string -> list string) (wst : option cv) (d1 d2 : dict),
+  (forall k, aget d1 k = aget d2 k) ->
+  rsame (configure_v2 glob wst (CDict d1)) (configure_v2 glob wst (CDict d2)).
+Proof. exact key_order_irrelevant. Qed.
+Print Assumptions C18_key_order_irrelevant.
+
+(** grid defaults: in an accepted configuration without warm start, whose grid section [g] is
+    omitted ([sec_or_empty] = empty) or incomplete, the grid module is the forcing module and the
+    grid file is the first file the forcing name stands for; everything else is untouched *)
+Theorem C18_grid_defaults : forall (glob : string -> list string) (wst : option cv)
+    (d : dict) (tr tm rl out : cv) (f : dict) (m : cv) (p : string) (g w : dict),
+  aget d "tracker" = Some tr -> is_null tr = false ->
+  aget d "time" = Some tm ->
+  aget d "release" = Some rl -> is_null rl = false ->
+  aget d "output" = Some out ->
+  aget d "forcing" = Some (CDict f) -> aget f "module" = Some m -> aget f "filename" = Some (CStr p) ->
+  sec_or_empty d "grid" = CDict g ->
+  sec_or_empty d "warm_start" = CDict w -> aget w "filename" = None ->
+  exists d' g',
+    configure_v2 glob wst (CDict d) = Ok (CDict d') /\ aget d' "grid" = Some (CDict g') /\
+    aget g' "module" = Some (match aget g "module" with Some x => x | None => m end) /\
+    aget g' "filename" = Some (match aget g "filename" with Some x => x | None => CStr (first_file_v2 glob p) end) /\
+    (forall k, String.eqb "module" k = false -> String.eqb "filename" k = false -> aget g' k = aget g k) /\
+    (forall k, String.eqb "grid" k = false -> aget d' k = aget (e4 d) k).
+Proof. exact grid_defaults. Qed.
+Print Assumptions C18_grid_defaults.
+(** "the first file": the name itself without wildcard; the first of the sorted expansion when
+    the name contains [*] or [?]; the name itself when nothing matches *)
+Theorem C18_wildcard_is_star_or_question : forall s,
+  has_wild s = true <-> In "*"%char (list_ascii_of_string s) \/ In "?"%char (list_ascii_of_string s).
+Proof. exact has_wild_spec. Qed.
+Print Assumptions C18_wildcard_is_star_or_question.
+Theorem C18_first_file : forall (glob : string -> list string) (p : string),
+  (has_wild p = false -> first_file_v2 glob p = p) /\
+  (forall f r, has_wild p = true -> glob p = f :: r -> first_file_v2 glob p = f) /\
+  (has_wild p = true -> glob p = [] -> first_file_v2 glob p = p).
+Proof. exact first_file_cases. Qed.
+Print Assumptions C18_first_file.
+
+(** * T3 — version dispatch of [configure] *)
+(** explicit [version]: the first character of [str(version)] decides ("2", 2, 2.0, "2.1" ...);
+    a KeyError of the v2 reader becomes SystemExit(3) *)
+Theorem C18_version_2_explicit : forall (glob : string -> list string) (wst : option cv) (c v : cv) (rest : string),
+  getdef c "version" (CStr "0") = Ok v -> str_of_cv v = String "2" rest ->
+  configure glob wst c = keyerror_to_exit (configure_v2 glob wst c).
+Proof. exact configure_v2_explicit. Qed.
+Print Assumptions C18_version_2_explicit.
+Theorem C18_version_1_explicit : forall (glob : string -> list string) (wst : option cv) (c v : cv) (rest : string),
+  getdef c "version" (CStr "0") = Ok v -> str_of_cv v = String "1" rest ->
+  configure glob wst c = configure_v1 glob c.
+Proof. exact configure_v1_explicit. Qed.
+Print Assumptions C18_version_1_explicit.
+(** no [version]: a [time_control] section means version 1, otherwise version 2 *)
+Theorem C18_version_inferred : forall (glob : string -> list string) (wst : option cv) (d : dict),
+  aget d "version" = None ->
+  configure glob wst (CDict d) =
+  if ahas d "time_control" then configure_v1 glob (CDict d)
+  else keyerror_to_exit (configure_v2 glob wst (CDict d)).
+Proof. exact configure_inferred. Qed.
+Print Assumptions C18_version_inferred.
+(** anything else is refused with SystemExit(3) *)
+Theorem C18_version_refused : forall (glob : string -> list string) (wst : option cv) (c v : cv) (ch : ascii) (rest : string),
+  getdef c "version" (CStr "0") = Ok v -> str_of_cv v = String ch rest ->
+  String.eqb (String ch rest) "0" = false -> Ascii.eqb ch "2" = false -> Ascii.eqb ch "1" = false ->
+  configure glob wst c = Err (EExit 3).
+Proof. exact configure_refused. Qed.
+Print Assumptions C18_version_refused.
+(** a version-2 file never ends in a bare KeyError *)
+Theorem C18_v2_no_bare_keyerror : forall r : res cv, keyerror_to_exit r <> Err EKey.
+Proof. exact keyerror_to_exit_no_key. Qed.
+Print Assumptions C18_v2_no_bare_keyerror.
+
+(** * Examples: non-vacuity, and the hypotheses are necessary *)
+Definition ovar (n f : string) (a : dict) : outvar := {| ov_name := n; ov_fmt := CStr f; ov_attrs := a |}.
+Definition Sx (m : gfmod) (ff : string) (cont : bool) (fq : option cv) (dif : option cv) : sim :=
+  {| s_start := CStr "2000-01-01T00:00:00"; s_stop := CStr "2000-01-01T02:00:00"; s_dt := CInt 600;
+     s_reference := None;
+     s_module := m; s_forcing_file := ff; s_grid_file := None;
+     s_subgrid := Some (CList [CInt 1; CInt 11; CInt 1; CInt 9]); s_extra_forcing := None;
+     s_advection := CStr "RK4"; s_diffusion := dif;
+     s_release_file := CStr "release.rls";
+     s_names := ["mult"; "release_time"; "X"; "Y"; "Z"; "farmid"; "lon"; "lat"];
+     s_continuous := cont; s_frequency := fq;
+     s_converters := [("release_time", CStr "time"); ("farmid", CStr "int")];
+     s_particle_vars := ["release_time"; "farmid"];
+     s_ibm_module := Some (CStr "myibm"); s_ibm_opts := [("salinity_model", CStr "new")];
+     s_ibm_vars := ["age"; "lon"];
+     s_out_file := CStr "out.nc"; s_out_period := CInt 1800; s_out_format := Some (CStr "NETCDF3_CLASSIC");
+     s_out_instance := [ovar "pid" "i4" [("long_name", CStr "particle identifier")]; ovar "X" "f4" [];
+                        ovar "age" "f4" [("units", CStr "days")]];
+     s_out_particle := [ovar "release_time" "f8" [("units", CStr "seconds since reference_time")]];
+     s_spell := {| sp_files := false; sp_ibm_legacy := true; sp_rtype := false; sp_min := true; sp_version := false |} |}.
+Definition S0 : sim := Sx (GRoms true) "f_?.nc" true (Some (CList [CInt 1; CStr "h"])) (Some (CInt 0)).
+Definition glob0 (p : string) : list string := ["f_1.nc"; "f_2.nc"].
+Definition lookup2 (r : res cv) (a b : string) : res cv := c <- r ;; s <- getitem c a ;; getitem s b.
+
+(** a description inside the hypotheses: continuous release, extra particle-variable column with
+    converter, lon/lat columns, IBM variables, "?" wildcard with the grid section omitted *)
+Example C18_ex :
+  wf_sim S0 = true /\ wf_glob glob0 S0 = true /\
+  lookup2 (configure glob0 None (render_v2 S0 true)) "grid" "filename" = Ok (CStr "f_1.nc") /\
+  lookup2 (configure glob0 None (render_v2 S0 true)) "grid" "module" = Ok (CStr "ladim.ROMS") /\
+  lookup2 (configure glob0 None (render_v1 S0)) "grid" "filename" = Ok (CStr "f_1.nc") /\
+  lookup2 (configure glob0 None (render_v1 S0)) "release" "continuous" = Ok (CBool true) /\
+  lookup2 (configure glob0 None (render_v1 S0)) "state" "instance_variables"
+    = Ok (CDict [("age", CStr "float"); ("lon", CStr "float"); ("lat", CStr "float")]) /\
+  lookup2 (configure glob0 None (render_v1 S0)) "state" "particle_variables"
+    = Ok (CDict [("release_time", CStr "time"); ("farmid", CStr "int")]) /\
+  (exists t, normalize_res (configure glob0 None (render_v1 S0)) = Ok t) /\
+  normalize_res (configure glob0 None (render_v1 S0)) = normalize_res (configure glob0 None (render_v2 S0 true)) /\
+  normalize_res (configure glob0 None (render_v1 S0)) = normalize_res (configure glob0 None (render_v2 S0 false)).
+Proof. vm_compute. repeat split; eexists; reflexivity. Qed.
+
+(** a discrete release whose v1 file still carries [release_frequency]: not continuous *)
+Example C18_ex_discrete_with_frequency :
+  let S := Sx (GRoms false) "forcing.nc" false (Some (CInt 3600)) None in
+  wf_sim S = true /\
+  lookup2 (normalize_res (configure glob0 None (render_v1 S))) "release" "continuous" = Ok (CBool false) /\
+  normalize_res (configure glob0 None (render_v1 S)) = normalize_res (configure glob0 None (render_v2 S true)).
+Proof. vm_compute. repeat split. Qed.
+
+(** necessity of the hypotheses *)
+(** a user module whose name contains the legacy ROMS name is replaced by ladim.ROMS by the v1
+    reader only *)
+Example C18_legacy_name_refuted :
+  let S := Sx (GCustom "my.ladim1.gridforce.ROMS") "f_?.nc" false None None in
+  wf_sim S = false /\
+  lookup2 (configure glob0 None (render_v1 S)) "forcing" "module" = Ok (CStr "ladim.ROMS") /\
+  lookup2 (configure glob0 None (render_v2 S true)) "forcing" "module" = Ok (CStr "my.ladim1.gridforce.ROMS").
+Proof. vm_compute. repeat split. Qed.
+(** a wildcard that matches nothing: IndexError in the v1 reader, the pattern itself as grid file
+    in the v2 reader (both runs stop, differently) *)
+Example C18_empty_expansion_refuted :
+  let S := Sx (GRoms true) "f_?.nc" false None None in
+  wf_sim S = true /\ wf_glob (fun _ => []) S = false /\
+  configure (fun _ => []) None (render_v1 S) = Err EIndex /\
+  lookup2 (configure (fun _ => []) None (render_v2 S true)) "grid" "filename" = Ok (CStr "f_?.nc").
+Proof. vm_compute. repeat split. Qed.
+(** a continuous release without frequency: KeyError in the v1 reader, accepted by the v2 reader *)
+Example C18_continuous_without_frequency_refuted :
+  let S := Sx (GRoms true) "forcing.nc" true None None in
+  wf_sim S = false /\ configure glob0 None (render_v1 S) = Err EKey /\
+  exists t, configure glob0 None (render_v2 S true) = Ok t.
+Proof. vm_compute. repeat split. eexists; reflexivity. Qed.
+(** a diffusion coefficient that is not a number and is falsy: dropped by the v1 reader, passed on
+    by the v2 reader *)
+Example C18_non_numeric_diffusion_refuted :
+  let S := Sx (GRoms true) "forcing.nc" false None (Some (CStr "")) in
+  wf_sim S = false /\
+  normalize_res (configure glob0 None (render_v1 S)) <> normalize_res (configure glob0 None (render_v2 S true)).
+Proof. vm_compute. split; [reflexivity|discriminate]. Qed.
+
+(** differences of the real code that lie outside the description (a v1 FILE the renderer never
+    writes); reported as findings *)
+Definition numerics_without_diffusion (c : cv) : cv :=
+  match c with
+  | CDict d => CDict (aset d "numerics" (CDict [("dt", CInt 600); ("advection", CStr "RK4")]))
+  | _ => c
+  end.
+(** F-a: the v1 reader needs numerics.diffusion (bare KeyError); the v2 tracker section does not *)
+Example C18_v1_requires_diffusion_key :
+  let S := Sx (GRoms true) "forcing.nc" false None None in
+  configure glob0 None (numerics_without_diffusion (render_v1 S)) = Err EKey /\
+  exists t, configure glob0 None (render_v2 S true) = Ok t.
+Proof. vm_compute. split; [reflexivity|eexists; reflexivity]. Qed.
+(** F-b: a v1 file with a warm_start section: the section is dropped and the result has NO
+    warm_start key at all, which Model.__init__ then misses (KeyError) *)
+Example C18_v1_warm_start_lost :
+  let S := Sx (GRoms true) "forcing.nc" false None None in
+  let c := match render_v1 S with
+           | CDict d => CDict (aset d "warm_start" (CDict [("filename", CStr "restart.nc")]))
+           | x => x end in
+  lookup2 (configure glob0 None c) "time" "start" = Ok (CStr "2000-01-01T00:00:00") /\
+  (c' <- configure glob0 None c ;; contains c' "warm_start") = Ok false /\
+  normalize_res (configure glob0 None c) = Err EKey.
+Proof. vm_compute. repeat split. Qed.
+(** null optional sections (YAML "grid:" with nothing after it) give the same module arguments as
+    omitted ones *)
+Example C18_ex_null_sections :
+  let S := Sx (GRoms true) "forcing.nc" false None None in
+  let put k v := match render_v2 S true with CDict d => CDict (aset d k v) | x => x end in
+  let same k := normalize_res (configure glob0 None (put k CNull)) = normalize_res (configure glob0 None (put k (CDict []))) in
+  same "grid" /\ same "warm_start" /\ same "state" /\ same "ibm" /\
+  lookup2 (configure glob0 None (put "grid" CNull)) "grid" "filename" = Ok (CStr "forcing.nc") /\
+  exists t, normalize_res (configure glob0 None (put "state" CNull)) = Ok t.
+Proof. vm_compute. repeat split. eexists; reflexivity. Qed.
+(** the reader before commit 0922df7 ([if section not in config: config[section] = dict()]): a null
+    grid or warm_start section was a TypeError, a null state or ibm section reached init_module
+    (AttributeError).  Kept as the witness of the repaired defect. *)
+Definition ensure_old (c : cv) (k : string) : res cv :=
+  h <- contains c k ;; if h then Ok c else setitem c k (CDict []).
+Definition configure_v2_old (glob : string -> list string) (wst : option cv) (c : cv) : res cv :=
+  c <- ensure_old c "state" ;; c <- ensure_old c "grid" ;; c <- ensure_old c "ibm" ;;
+  c <- ensure_old c "warm_start" ;; cfg2_rest glob wst c.
+Example C18_null_section_old_defect :
+  let S := Sx (GRoms true) "forcing.nc" false None None in
+  let with_null k := match render_v2 S true with CDict d => CDict (aset d k CNull) | x => x end in
+  configure_v2_old glob0 None (with_null "grid") = Err EType /\
+  configure_v2_old glob0 None (with_null "warm_start") = Err EType /\
+  normalize_res (configure_v2_old glob0 None (with_null "state")) = Err EAttr /\
+  normalize_res (configure_v2_old glob0 None (with_null "ibm")) = Err EAttr /\
+  configure_v2_old glob0 None (render_v2 S true) = configure_v2 glob0 None (render_v2 S true).
+Proof. vm_compute. repeat split. Qed.
+
+(** version dispatch on concrete spellings *)
+Example C18_ex_versions :
+  let S := Sx (GRoms true) "forcing.nc" false None None in
+  let ver v c := match c with CDict d => CDict (aset d "version" v) | x => x end in
+  decide_version (ver (CStr "2.0") (render_v2 S true)) = Ok (Some V2) /\
+  decide_version (ver (CFloat 2 1) (render_v2 S true)) = Ok (Some V2) /\
+  decide_version (ver (CInt 1) (render_v2 S true)) = Ok (Some V1) /\
+  decide_version (ver (CStr "1.3") (render_v1 S)) = Ok (Some V1) /\
+  decide_version (ver (CInt 0) (render_v1 S)) = Ok (Some V1) /\
+  decide_version (ver (CInt 0) (render_v2 S true)) = Ok (Some V2) /\
+  decide_version (ver (CInt 3) (render_v2 S true)) = Ok None /\
+  decide_version (ver (CStr "x") (render_v2 S true)) = Ok None /\
+  decide_version (ver CNull (render_v2 S true)) = Ok None /\
+  decide_version (ver (CStr "") (render_v2 S true)) = Err EIndex /\
+  configure glob0 None (ver (CInt 2) (render_v1 S)) = Err (EExit 3).
+Proof. vm_compute. repeat split. Qed.
